@@ -361,6 +361,8 @@ def rand_cfg(rng, nclients=None, nservers=None, rewrites=True, ttl=True, plain_t
         k = rng.randrange(0, len(snames) + 1)
         srv = rng.sample(snames, k) if k else None
         acc = (rng.sample(snames, rng.randrange(1, len(snames) + 1)) if rng.random() < 0.5 else None)
+        if srv and len(srv) >= 2 and int(hashlib.sha1(repr((rn, srv)).encode()).hexdigest(), 16) % 4 == 0:
+            srv = srv + [srv[0]]        # a server may be named more than once in a realm: the list is what is written (first place counts)
         c.realms.append(dict(name=rn, srv=srv, acc=acc, msg=(bytes(rng.choice(b"abc xyz") for _ in range(rng.choice([1, 10, 253]))).replace(b" ", b"_") if rng.random() < 0.5 else None),
                              accresp=rng.random() < 0.5))
     if rng.random() < 0.7:
